@@ -458,6 +458,21 @@ func c14Real(r *core.Run, desc string, build func() (*store.Store, cid.Cid, erro
 		if err != nil || !bytes.Equal(enc, orig) {
 			r.Violate("real-substrate-reencode "+how, fmt.Sprintf("%s: err=%v", desc, err), replay)
 		}
+		// the same reification through a link system that reifies every node it
+		// loads (NodeReifier): child blocks reach the library already interpreted
+		if kind == datamodel.Kind_Map {
+			lr := lsReifying(s)
+			var n3 datamodel.Node
+			var err3 error
+			if p, pv := core.Guard(func() { n3, err3 = openVia(how, lr, rn) }); p {
+				r.Violate("panic reify reifying-linksystem "+how, fmt.Sprintf("%s: %v", desc, pv), replay)
+			} else if err3 != nil {
+				r.Violate("real-reify-error reifying-linksystem "+how, desc+": "+err3.Error(), replay)
+			} else if n3.Kind() != kind || n3.Length() != n.Length() {
+				r.Violate("real-kind reifying-linksystem "+how, fmt.Sprintf("%s: kind %v length %d, with the plain link system kind %v length %d", desc, n3.Kind(), n3.Length(), n.Kind(), n.Length()), replay)
+			}
+			r.Transitions.Add(1)
+		}
 		// a reified node is not a dag-pb node: reifying it again (nested
 		// interpret-as clauses do this) returns it unchanged
 		for _, again := range []string{"Reify", "unixfs", "unixfs-preload"} {
